@@ -84,7 +84,12 @@ func c01Cases(c *h.Ctx) (idx []int, msgs []any) {
 	stride := c.Pick(5, 1)
 	off := int(c.Seed) % stride
 	for i := range plan {
-		if i%stride == off || c.Seed == 0 {
+		// the quick tier thins out only the big regular families (every operation x direction x
+		// version x fill, random messages, value sweeps); the entries about one particular shape
+		// (objects, key formats, key value modes, attributes, credentials, batch shapes) all run
+		n := plan[i].Note
+		thin := n == "A" || strings.HasPrefix(n, "F/") || strings.HasPrefix(n, "G/") || strings.HasPrefix(n, "H/") || strings.HasPrefix(n, "C/attributes")
+		if !thin || i%stride == off || c.Seed == 0 {
 			idx = append(idx, i)
 			msgs = append(msgs, gv.CoverageCase(h.NewRand(c.Seed), i))
 		}
@@ -93,7 +98,7 @@ func c01Cases(c *h.Ctx) (idx []int, msgs []any) {
 }
 
 func driveC01(c *h.Ctx) error {
-	c.Rule("a case is a well-formed KMIP request or response message from the schema-driven coverage plan (every struct field, operation x direction, object type, key format, attribute name, credential type, batch shape, version 1.0-1.4; scalars from boundary pools); the quick tier runs every 5th plan entry (rotating with the seed), the thorough tier all of them; non-trivial = distinct message")
+	c.Rule("a case is a well-formed KMIP request or response message from the schema-driven coverage plan (every struct field, operation x direction, object type, key format, attribute name, credential type, batch shape, version 1.0-1.4; scalars from boundary pools); the quick tier runs every 5th entry (rotating with the seed) of the big regular families (operation x direction x version x fill, attribute sets, emptied structures, random messages, value sweeps) and ALL entries about one particular shape (objects, key formats, key value modes, generic trees, credentials, batch shapes), the thorough tier all of them; non-trivial = distinct message")
 	idx, msgs := c01Cases(c)
 	var rows, rowsSame []string
 	for k, msg := range msgs {
@@ -110,6 +115,7 @@ func driveC01(c *h.Ctx) error {
 		}
 		c.Eval(vin, true)
 		c.Count("root:" + root)
+		c.Count("plan:" + gv.CoveragePlan()[i].Note)
 		if k%97 == 0 {
 			c.Sample(caseJSON)
 		}
